@@ -360,7 +360,8 @@ func (c *Ctx) checkBatching(rulePrefix string, size, once bool) {
 							"batch value: "+vb.Name()+" = "+vb.String(), "counter value: "+fmt.Sprint(vc))
 					}
 				case isFlushValue(bl, vb):
-					// counter may be reset or keep its value; nothing to demand (G4)
+					// counter may be reset or keep its value: the emitter hands back an empty batch
+					// (checked below, returns-empty)
 				default:
 					// batch unchanged (or an inner phi): the counter must not be reset nor decreased
 					if vc != nil {
@@ -396,6 +397,8 @@ func (c *Ctx) checkBatching(rulePrefix string, size, once bool) {
 			}
 		}
 		checkPhiPair(bl.B, bl.C)
+		// a reset after emitting is only right if nothing stays in the batch the emitter hands back
+		c.checkFlushReturnsEmpty(rule, bl.flushFn, "the emitter can hand back a batch that still holds metrics (not batch[:0] / fresh) while the byte counter is reset after emitting: the retained metrics are not charged, the next datagram exceeds the maximum packet size")
 		if okPairs {
 			c.ok(rule, key+":charge", bl.C.Pos(), fmt.Sprintf("bytes >= sum of charged sizes of the open batch is preserved on all %d loop-carried updates", pairs))
 		}
@@ -479,6 +482,16 @@ func isFlushValue(bl *batchLoop, v ssa.Value) bool {
 // checkFlushFn: the emitter passes its whole batch parameter as Metrics of the emitted batch and
 // returns an empty batch (param[:0], a fresh slice, or the parameter itself only when it is empty).
 func (c *Ctx) checkFlushFn(rule string, fn *ssa.Function) {
+	batch := c.checkFlushReturnsEmpty(rule, fn, "the emitter hands back a batch that is not empty (not batch[:0] / fresh): its metrics are emitted again with the next batch (duplicates)")
+	if batch == nil {
+		return
+	}
+	c.checkFlushEmitsAll(rule, fn, batch)
+}
+
+// checkFlushReturnsEmpty: every return of the emitter is batch[:0], a fresh slice, nil, or the
+// parameter itself only when it is known empty.
+func (c *Ctx) checkFlushReturnsEmpty(rule string, fn *ssa.Function, badMsg string) *ssa.Parameter {
 	key := c.fnKey(fn)
 	var batch *ssa.Parameter
 	for _, p := range fn.Params {
@@ -490,7 +503,7 @@ func (c *Ctx) checkFlushFn(rule string, fn *ssa.Function) {
 	}
 	if batch == nil {
 		c.undecided(rule, key, fn.Pos(), "emitter without a batch parameter")
-		return
+		return nil
 	}
 	okRet := true
 	for _, r := range returnsOf(fn) {
@@ -535,11 +548,18 @@ func (c *Ctx) checkFlushFn(rule string, fn *ssa.Function) {
 			}
 		}
 		okRet = false
-		c.bad(rule, key+":returns-empty", r.Pos(), "the emitter hands back a batch that is not empty (not batch[:0] / fresh): its metrics are emitted again with the next batch (duplicates)", c.describe(r))
+		c.bad(rule, key+":returns-empty", r.Pos(), badMsg, c.describe(r))
 	}
 	if okRet {
 		c.ok(rule, key+":returns-empty", fn.Pos(), "the emitter returns an empty batch")
 	}
+	return batch
+}
+
+// checkFlushEmitsAll: the emitter passes its whole batch parameter as Metrics of the emitted batch,
+// with the reporter's common tags.
+func (c *Ctx) checkFlushEmitsAll(rule string, fn *ssa.Function, batch *ssa.Parameter) {
+	key := c.fnKey(fn)
 	// emits the whole batch with the reporter's common tags (C13 O6)
 	fCommon := c.field("m3", "reporter", "commonTags")
 	fMetrics, fCT := c.field("m3/thrift/v2", "MetricBatch", "Metrics"), c.field("m3/thrift/v2", "MetricBatch", "CommonTags")
